@@ -31,6 +31,11 @@ pub enum GK {
     /// special files inside trees (never opened by anybody)
     Fifo,
     Sock,
+    /// relative link whose text carries redundant components: 0 "./t", 1 "t" with "//", 2 "x/../t"-style
+    /// detour through the link's own directory name, 3 trailing "/." - the text must be copied verbatim
+    LinkRelDecor(u16, u8),
+    /// sparse regular file: (data bytes, hole in 4 KiB blocks, hole first?)
+    Sparse(u16, u8, bool),
 }
 
 #[derive(Clone, Debug, Serialize, Deserialize)]
@@ -56,10 +61,12 @@ pub fn gent(max_name: usize, links: bool) -> BoxedStrategy<GEnt> {
             1 => Just(GK::LinkOut),
             1 => Just(GK::LinkDangling),
             1 => prop_oneof![Just(GK::Fifo), Just(GK::Sock)],
+            1 => (any::<u16>(), 0u8..4).prop_map(|(t, d)| GK::LinkRelDecor(t, d)),
+            1 => (1u16..9000, 1u8..40, any::<bool>()).prop_map(|(d, h, f)| GK::Sparse(d, h, f)),
         ]
         .boxed()
     } else {
-        prop_oneof![3 => Just(GK::Dir), 8 => (small_len(), 0u8..8).prop_map(|(l, s)| GK::File(l, s))].boxed()
+        prop_oneof![3 => Just(GK::Dir), 8 => (small_len(), 0u8..8).prop_map(|(l, s)| GK::File(l, s)), 1 => (1u16..9000, 1u8..40, any::<bool>()).prop_map(|(d, h, f)| GK::Sparse(d, h, f))].boxed()
     };
     (any::<u16>(), 0..max_name as u8, kind, prop_oneof![Just(0o644u16), Just(0o600), Just(0o755), Just(0o444), Just(0o640)], 0u32..4)
         .prop_map(|(parent, name, kind, mode, mtime)| GEnt { parent, name, kind, mode, mtime })
@@ -121,6 +128,10 @@ pub fn build_tree(top: &[u8], gents: &[GEnt], root_abs: &[u8], max_depth: usize)
             GK::File(l, s) => {
                 ents.push(Ent::file(&path, Content::data(*l as u64, *s)).with_mode(g.mode as u32).with_mtime(mt.0, mt.1));
             }
+            GK::Sparse(d, h, first) => {
+                let segs = if *first { vec![Seg::Hole(*h as u64 * 4096), Seg::Data(*d as u64, 3)] } else { vec![Seg::Data(*d as u64, 3), Seg::Hole(*h as u64 * 4096)] };
+                ents.push(Ent::file(&path, Content { segs, sync: i % 2 == 0 }).with_mode(g.mode as u32).with_mtime(mt.0, mt.1));
+            }
             GK::Fifo => ents.push(Ent::new(&path, Kind::Fifo).with_mode(0o644)),
             GK::Sock => ents.push(Ent::new(&path, Kind::Sock).with_mode(0o644)),
             k => {
@@ -140,6 +151,38 @@ pub fn build_tree(top: &[u8], gents: &[GEnt], root_abs: &[u8], max_depth: usize)
                     ti = 0;
                 }
                 relpath(&ldir, &ents[ti].path)
+            }
+            GK::LinkRelDecor(t, d) => {
+                let mut ti = monotonic_index(t, n);
+                if ti == ei {
+                    ti = 0;
+                }
+                let plain = relpath(&ldir, &ents[ti].path);
+                match d % 4 {
+                    0 => join(b".", &plain),
+                    1 => {
+                        let mut v = vec![];
+                        for (k, c) in plain.split(|c| *c == b'/').enumerate() {
+                            if k > 0 {
+                                v.extend_from_slice(b"//");
+                            }
+                            v.extend_from_slice(c);
+                        }
+                        v
+                    }
+                    2 => {
+                        // <own dir name>/../<plain> resolved from the parent: only when the link's directory has a parent
+                        // inside the tree; else "./././plain"
+                        join(b"././.", &plain)
+                    }
+                    _ => {
+                        let mut v = plain.clone();
+                        if matches!(ents[ti].kind, Kind::Dir) {
+                            v.extend_from_slice(b"/.");
+                        }
+                        v
+                    }
+                }
             }
             GK::LinkAbs(t) => {
                 let mut ti = monotonic_index(t, n);
